@@ -56,7 +56,18 @@ func (r Rng) Scenario(maxMsgs int) pairScenario {
 				continue
 			}
 			used[mid] = true
-			c.Outbox = append(c.Outbox, r.Message(c.Mycall, mid))
+			msg := r.Message(c.Mycall, mid)
+			if r.Intn(4) == 0 {
+				// two attachments with the same name and size and different content (their File
+				// header lines are identical), a recipient named twice
+				size := 1 + r.Intn(40)
+				msg.AddFile(fbb.NewFile("image.jpg", r.Bytes(size)))
+				msg.AddFile(fbb.NewFile("image.jpg", r.Bytes(size)))
+				if r.Intn(2) == 0 {
+					msg.AddTo(msg.To()[0].String())
+				}
+			}
+			c.Outbox = append(c.Outbox, msg)
 			switch r.Intn(6) {
 			case 0:
 				peer.Policy[mid] = fbb.Reject
@@ -166,7 +177,7 @@ func tuneBlockSum(r Rng, sc *pairScenario, want int) {
 
 func runC01(ctx *Ctx) error {
 	r, res := ctx.Rng, ctx.Res
-	res.Rule = "cases: pairs of real Sessions (random master/slave, MOTD, batched/unbatched handlers, 0..12 valid messages each way with non-ASCII subjects, precedence markers, attachments, long encoded titles, MIDs that differ only in letter case within one block; per-MID accept/reject/defer policies) over an in-memory duplex with read segmentation 1..300 bytes or unlimited. Oracle: the statement of C01 on the handlers' logs (delivered exactly once and intact, reported sent exactly once, rejected/deferred reported and not transferred, stats, nil results, closed). Correspondence: each real side vs the model side fed with the bytes its peer actually sent (wire bytes, callbacks, stats, result). GZIP_EXPERIMENT pairs are checked by the oracle only. Non-trivial: at least one message body transferred; distinct by scenario."
+	res.Rule = "cases: pairs of real Sessions (random master/slave, MOTD, batched/unbatched handlers, 0..12 valid messages each way with non-ASCII subjects, precedence markers, attachments (a quarter of the messages with two attachments of the same name and size, half of those with a recipient named twice), long encoded titles, MIDs that differ only in letter case within one block; per-MID accept/reject/defer policies) over an in-memory duplex with read segmentation 1..300 bytes or unlimited. Oracle: the statement of C01 on the handlers' logs (delivered exactly once and intact, reported sent exactly once, rejected/deferred reported and not transferred, stats, nil results, closed). Correspondence: each real side vs the model side fed with the bytes its peer actually sent (wire bytes, callbacks, stats, result). GZIP_EXPERIMENT pairs are checked by the oracle only. Non-trivial: at least one message body transferred; distinct by scenario."
 	var lines, impl []string
 	var cases []interface{}
 	n := ctx.N(120, 1500)
